@@ -86,3 +86,16 @@ Theorem C07_monitor_holds_of_model :
                 c7_attrs := match c07_expect s with Some (_, l) => l | None => [] end |} = true.
 Proof. exact c07_spec_of_model. Qed.
 Print Assumptions C07_monitor_holds_of_model.
+
+(* Why a carriage return made an unencrypted response unverifiable before F14:
+   for any collision-free digest, the digest the verifier recomputes over what
+   it parsed equals the digest the signer computed over the in-memory text iff
+   the text survived the serialise -> parse hop. *)
+Theorem digest_stable_iff :
+  forall (digest : string -> string), (forall a b, digest a = digest b -> a = b) ->
+  forall m s s',
+    valid_xml_chars s = true -> valid_xml_chars s' = true ->
+    xml_read_text (etree_escape m s) = Some s' ->
+    (digest (etree_escape EscCanonText s') = digest (etree_escape EscCanonText s) <-> s' = s).
+Proof. exact XmlTextProofs.digest_stable_iff. Qed.
+Print Assumptions digest_stable_iff.
